@@ -1287,6 +1287,7 @@ class ListNode(SyntaxNodeBase):
         if not new_vals:
             self._nodes = []
             return
+        old_end_padding = self._get_end_padding()
         new_vals_cache = {id(v): v for v in new_vals}
         # bind shortcuts to single site in new values
         for shortcut in self._shortcuts:
@@ -1320,6 +1321,42 @@ class ListNode(SyntaxNodeBase):
         ):
             self._nodes.pop()
             self._shortcuts.pop()
+        # the comments after the last value of the input stay at its end
+        if (
+            old_end_padding is not None
+            and len(list(old_end_padding.comments)) > 0
+            and len(self._nodes) > 0
+            and self._get_end_padding() is not old_end_padding
+        ):
+            end = self._nodes[-1]
+            if isinstance(end, ShortcutNode) and end._type not in {
+                Shortcuts.INTERPOLATE,
+                Shortcuts.LOG_INTERPOLATE,
+            }:
+                end.end_padding = old_end_padding
+            else:
+                if isinstance(end, ShortcutNode):
+                    end = end.nodes[-1]
+                end.padding = old_end_padding
+
+    def _get_end_padding(self):
+        """
+        The padding that follows the last value of this list.
+
+        :rtype: PaddingNode
+        """
+        if len(self._nodes) == 0:
+            return None
+        end = self._nodes[-1]
+        if isinstance(end, ShortcutNode):
+            if end.end_padding is not None:
+                return end.end_padding
+            if len(end.nodes) == 0:
+                return None
+            end = end.nodes[-1]
+        if isinstance(end, ValueNode):
+            return end.padding
+        return None
 
     def _expand_shortcuts(self, new_vals, new_vals_cache):
         """
